@@ -14,11 +14,12 @@ na_path = os.path.join(VERIF, "tools", "not_applicable.json")
 na = json.load(open(na_path)) if os.path.exists(na_path) else {}
 hooks_commits = json.load(open(os.path.join(VERIF, "tools", "hook_commits.json"))) if os.path.exists(os.path.join(VERIF, "tools", "hook_commits.json")) else []
 
+ready = set(json.load(open(os.path.join(VERIF, "tools", "ready.json"))))   # properties whose check the coordinator has accepted
 checks, not_applicable, served = [], [], []
 for p in props:
     pid = p["id"]
     path = os.path.join(VERIF, "rv", "checks", pid.lower() + ".py")
-    if os.path.exists(path) and pid not in na:
+    if os.path.exists(path) and pid not in na and pid in ready:
         mod = importlib.import_module("rv.checks." + pid.lower())
         served.append(pid)
         checks.append({
